@@ -100,7 +100,7 @@ class C13(Check):
     world = 'gateway'
     level = 'exploration'
     design_ref = 'DESIGN.md 3.7'
-    runs = {'quick': 1200, 'thorough': 25000}
+    runs = {'quick': 1200, 'thorough': 15000}
     shrink_lists = (('ops',),)
     hashseeds = {'quick': [1], 'thorough': [1, 2]}
     rule = ('one application exposing every response kind (plain, streamed, rendered context, static files small/big/missing, '
